@@ -201,6 +201,80 @@ class Audit:
         o = [(k, v) for k, v in self.B["C"] if k != "NMONTHS"]
         self.check_rejected_before_computation(o, rows[4], "NMONTHS=<missing>")
 
+    # ---- G: documented literals (README: months of feed / biofuel, thresholds, flags), checked on the real dispatch
+    DOC = {
+        ("shutoff", "immediate"): {"DELAY.FEED_SHUTOFF_MONTHS": 0, "DELAY.BIOFUEL_SHUTOFF_MONTHS": 0,
+                                   "MINIMUM_PERCENT_FED_BEFORE_NONHUMAN_CONSUMPTION_ALLOWED": 100},
+        ("shutoff", "short_delayed_shutoff"): {"DELAY.FEED_SHUTOFF_MONTHS": 2, "DELAY.BIOFUEL_SHUTOFF_MONTHS": 1,
+                                               "MINIMUM_PERCENT_FED_BEFORE_NONHUMAN_CONSUMPTION_ALLOWED": 100},
+        ("shutoff", "long_delayed_shutoff"): {"DELAY.FEED_SHUTOFF_MONTHS": 3, "DELAY.BIOFUEL_SHUTOFF_MONTHS": 2,
+                                              "MINIMUM_PERCENT_FED_BEFORE_NONHUMAN_CONSUMPTION_ALLOWED": 100},
+        ("shutoff", "one_month_delayed_shutoff"): {"DELAY.FEED_SHUTOFF_MONTHS": 1, "DELAY.BIOFUEL_SHUTOFF_MONTHS": 1,
+                                                   "MINIMUM_PERCENT_FED_BEFORE_NONHUMAN_CONSUMPTION_ALLOWED": 100},
+        ("shutoff", "continued"): {"DELAY.FEED_SHUTOFF_MONTHS": 120, "DELAY.BIOFUEL_SHUTOFF_MONTHS": 120,
+                                   "MINIMUM_PERCENT_FED_BEFORE_NONHUMAN_CONSUMPTION_ALLOWED": 100},
+        ("shutoff", "continued_after_10_percent_fed"): {"DELAY.FEED_SHUTOFF_MONTHS": 120, "DELAY.BIOFUEL_SHUTOFF_MONTHS": 120,
+                                                        "MINIMUM_PERCENT_FED_BEFORE_NONHUMAN_CONSUMPTION_ALLOWED": 10},
+        ("shutoff", "long_delayed_shutoff_after_10_percent_fed"): {"DELAY.FEED_SHUTOFF_MONTHS": 12, "DELAY.BIOFUEL_SHUTOFF_MONTHS": 6,
+                                                                   "MINIMUM_PERCENT_FED_BEFORE_NONHUMAN_CONSUMPTION_ALLOWED": 10},
+        ("cull", "do_eat_culled"): {"ADD_MEAT": True, "ADD_MILK": True},
+        ("cull", "dont_eat_culled"): {"ADD_MEAT": False, "ADD_MILK": False},
+        ("stored_food", "zero"): {"ADD_STORED_FOOD": False, "PERCENT_STORED_FOOD_TO_USE": 0},
+        ("stored_food", "baseline"): {"ADD_STORED_FOOD": True, "PERCENT_STORED_FOOD_TO_USE": 100},
+        ("ratio_stocks_untouched", "zero"): {"RATIO_STOCKS_UNTOUCHED": 0, "STORE_FOOD_BETWEEN_YEARS": True},
+        ("ratio_stocks_untouched", "baseline"): {"RATIO_STOCKS_UNTOUCHED": 1, "STORE_FOOD_BETWEEN_YEARS": True},
+        ("ratio_stocks_untouched", "no_stored_between_years"): {"RATIO_STOCKS_UNTOUCHED": 0, "STORE_FOOD_BETWEEN_YEARS": False},
+        ("waste", "zero"): {"WASTE_RETAIL": 0, "WASTE_DISTRIBUTION.CROPS": 0, "WASTE_DISTRIBUTION.MEAT": 0},
+        ("waste", "baseline_globally"): {"WASTE_RETAIL": 24.98, "WASTE_DISTRIBUTION.CROPS": 4.96},
+        ("waste", "doubled_prices_globally"): {"WASTE_RETAIL": 10.6},
+        ("waste", "tripled_prices_globally"): {"WASTE_RETAIL": 6.08},
+        ("nutrition", "baseline"): {"NUTRITION.KCALS_DAILY": 2100, "NUTRITION.FAT_DAILY": 61.7, "NUTRITION.PROTEIN_DAILY": 59.5},
+        ("nutrition", "catastrophe"): {"NUTRITION.KCALS_DAILY": 2100, "NUTRITION.FAT_DAILY": 47, "NUTRITION.PROTEIN_DAILY": 51},
+        ("meat_strategy", "reduce_breeding"): {"BREEDING_STRATEGY": "reduced"},
+        ("meat_strategy", "baseline_breeding"): {"BREEDING_STRATEGY": "baseline"},
+        ("scenario", "no_resilient_foods"): {"ADD_SEAWEED": False, "ADD_METHANE_SCP": False, "ADD_CELLULOSIC_SUGAR": False,
+                                             "ADD_GREENHOUSES": False, "OG_USE_BETTER_ROTATION": False},
+        ("scenario", "seaweed"): {"ADD_SEAWEED": True, "ADD_METHANE_SCP": False, "ADD_CELLULOSIC_SUGAR": False, "ADD_GREENHOUSES": False},
+        ("scenario", "all_resilient_foods"): {"ADD_SEAWEED": True, "ADD_METHANE_SCP": True, "ADD_CELLULOSIC_SUGAR": True,
+                                              "ADD_GREENHOUSES": True, "OG_USE_BETTER_ROTATION": True},
+        ("crop_disruption", "all_crops_die_instantly"): {"ADD_OUTDOOR_GROWING": False, "RATIO_CROPS_YEAR1": 0, "RATIO_CROPS_YEAR11": 0},
+        ("crop_disruption", "zero"): {"ADD_OUTDOOR_GROWING": True, "RATIO_CROPS_YEAR1": 1, "RATIO_CROPS_YEAR10": 1},
+        ("grasses", "baseline"): {"RATIO_GRASSES_YEAR1": 1, "RATIO_GRASSES_YEAR10": 1},
+        ("protein", "not_required"): {"INCLUDE_PROTEIN": False},
+        ("fat", "not_required"): {"INCLUDE_FAT": False},
+    }
+
+    def check_doc(self, fam, val):
+        want = self.DOC[(fam, val)]
+        o = [(k, (val if k == fam else v)) for k, v in self.B["G"]]
+        r = dispatch(o, None)
+        self.cnt("G_documented_literals")
+        inp = {"fam": fam, "val": val}
+        if not r["ok"]:
+            self.fail(f"C13:documented-value-rejected@run_scenario.set_depending_on_option:{fam}={val}",
+                      f"{fam}={val} rejected on the global base: {r.get('kind')} {r.get('msg')}", "doc", inp)
+            return
+        got = fl(r["cp"])
+        bad = []
+        for k, w in want.items():
+            g = got.get(k)
+            gv = None if g is None else g.get("n", g.get("b", g.get("s")))
+            if isinstance(w, bool):
+                ok = g is not None and "b" in g and g["b"] == w
+            elif isinstance(w, str):
+                ok = gv == w
+            else:
+                ok = g is not None and "n" in g and abs(g["n"] - w) <= 1e-12 * max(1.0, abs(w))
+            if not ok:
+                bad.append((k, gv, w))
+        if bad:
+            self.fail(f"C13:documented-constant-differs@run_scenario.set_depending_on_option:{fam}={val}",
+                      f"{fam}={val} sets {[(k, g) for k, g, _ in bad]}, documentation says {[(k, w) for k, _, w in bad]}", "doc", inp)
+
+    def part_G(self):
+        for fam, val in self.DOC:
+            self.check_doc(fam, val)
+
     # ---- B
     def check_pair(self, a, b, glob, rid):
         from src.scenarios.scenarios import Scenarios
@@ -404,16 +478,19 @@ def run(payload):
             a.check_pair(inp["a"], inp["b"], inp["glob"], inp["row"])
         elif chk == "head":
             a.check_head(inp["species"], inp["code"], inp["value"])
+        elif chk == "doc":
+            a.check_doc(inp["fam"], inp["val"])
         elif chk == "frame":
             # frames are re-derived (expectation functions are not serialisable): re-run the whole family of frames
             a.part_D(species)
             a.failures = [f for f in a.failures if f["key"] == rep.get("key")]
         else:
             # tie-broken / proof-broken replays carry no direct implementation property; re-run the audit
-            a.part_A(); a.part_B(); a.part_D(species)
+            a.part_A(); a.part_B(); a.part_D(species); a.part_G()
         return {"failures": a.failures, "replayed": chk, "counts": a.counts, "observations": a.obs, "distinct": a.distinct}
     quick = payload.get("tier") == "quick"
     a.part_A()
+    a.part_G()
     a.part_B()
     a.part_D(species)
     all_codes = [str(x) for x in a.rows.table["iso3"]]
